@@ -36,3 +36,80 @@ Qed.
 Theorem client_credentials_within_configured allowed x :
   In x (client_credentials_scope allowed) -> exists a, allowed = Some a /\ In x a.
 Proof. destruct allowed as [a|]; cbn; [eauto|intros []]. Qed.
+
+(* ---- the authorization endpoint with a resource parameter ---- *)
+Lemma effective_in requested permitted x :
+  In x (authz_effective requested permitted) -> In x requested /\ (forall p, permitted = Some p -> In x p).
+Proof.
+  unfold authz_effective. destruct permitted as [p|]; intros H.
+  - apply dedup_in in H. apply filter_In in H as [H1 H2]. apply str_in_In in H2. split; auto. intros p' E; inversion E; subst; auto.
+  - split; auto. intros p' E; discriminate E.
+Qed.
+(* whatever the authorization endpoint mints - grant, code, access token, ID Token - carries only scopes the request
+   asked for, the client is allowed and (under a resource policy) the named resources permit *)
+Theorem authz_artefacts_within_request requested allowed permitted rscopes x :
+  let r := authz_decide requested allowed permitted rscopes in
+  In x (a_grant r) \/ In x (a_code r) \/ In x (a_access r) \/ In x (a_idtoken r) ->
+  In x requested /\ In x allowed /\ (forall p, permitted = Some p -> In x p).
+Proof.
+  cbn. intros H. assert (Hx : In x (List.filter (fun y => str_in y allowed) (authz_effective requested permitted)))
+    by (destruct H as [H|[H|[H|H]]]; exact H).
+  apply filter_In in Hx as [H1 H2]. apply str_in_In in H2. apply effective_in in H1 as [H1 H3]. auto.
+Qed.
+(* THE RESOURCE PARAMETER NEVER ADDS A SCOPE TO A TOKEN: a scope that only the named resources' registrations list
+   (not the request) is in no artefact's scope *)
+Theorem authz_resource_scopes_never_reach_tokens requested allowed permitted rscopes x :
+  let r := authz_decide requested allowed permitted rscopes in
+  In x rscopes -> ~ In x requested ->
+  ~ In x (a_grant r) /\ ~ In x (a_code r) /\ ~ In x (a_access r) /\ ~ In x (a_idtoken r).
+Proof.
+  intros r _ Hn.
+  assert (K : In x (a_grant r) \/ In x (a_code r) \/ In x (a_access r) \/ In x (a_idtoken r) -> False).
+  { intros H. apply Hn. now apply (authz_artefacts_within_request requested allowed permitted rscopes x) in H as [H _]. }
+  repeat split; intros H; apply K; auto.
+Qed.
+(* the response's statement: allowed for the client, and asked for OR listed by a named resource's registration *)
+Theorem authz_response_within requested allowed permitted rscopes x :
+  In x (a_response (authz_decide requested allowed permitted rscopes)) -> In x allowed /\ (In x requested \/ In x rscopes).
+Proof.
+  cbn. intros H. apply filter_In in H as [H1 H2]. apply str_in_In in H2. split; auto.
+  apply dedup_in in H1. apply in_app_or in H1 as [H1|H1]; auto. left. now apply effective_in in H1 as [H1 _].
+Qed.
+(* without a resource parameter the statement is the artefacts' scope (as a set) *)
+Lemma dedup_in_rev x l : In x l -> In x (dedup l).
+Proof.
+  induction l as [|y r IH]; cbn; auto. intros [->|H].
+  - destruct (str_in x r) eqn:E; [apply IH; now apply str_in_In|now left].
+  - destruct (str_in y r); [auto|right; auto].
+Qed.
+Theorem authz_response_is_token_scope_without_resource requested allowed permitted x :
+  let r := authz_decide requested allowed permitted [] in
+  In x (a_response r) <-> In x (a_access r).
+Proof.
+  cbn. rewrite app_nil_r. split; intros H; apply filter_In in H as [H1 H2]; apply filter_In; split; auto.
+  - now apply dedup_in.
+  - now apply dedup_in_rev.
+Qed.
+
+(* RECORDED FINDING authz-response-states-resource-scope, as a witness: the request asks for `profile` and names a
+   resource whose registration lists `email`; the client is allowed both.  The response states email, no artefact has it. *)
+Definition ex_req := [PS "profile"].
+Definition ex_allowed := [PS "openid"; PS "profile"; PS "email"; PS "offline_access"].
+Definition ex_rscopes := [PS "email"; PS "phone"].
+Example authz_response_states_resource_scope_refuted :
+  let r := authz_decide ex_req ex_allowed None ex_rscopes in
+  a_response r = [PS "profile"; PS "email"] /\ a_access r = [PS "profile"] /\ a_code r = [PS "profile"] /\
+  set_eqb (a_response r) (a_access r) = false.
+Proof. vm_compute. auto. Qed.
+(* RECORDED FINDING token-response-scope-under-resource-policy, as witnesses: the grant holds `profile`; a token request
+   without scope parameter is answered with an empty scope statement, one with scope=[email] with the statement [email];
+   the token carries the grant's scope either way. *)
+Example token_response_scope_under_resource_policy_refuted :
+  token_ri_statement [] ex_allowed = [] /\ token_ri_statement [PS "email"] ex_allowed = [PS "email"] /\
+  token_ri_token [PS "profile"] = [PS "profile"] /\
+  set_eqb (token_ri_statement [PS "email"] ex_allowed) (token_ri_token [PS "profile"]) = false.
+Proof. vm_compute. auto. Qed.
+(* what the statement can be at most: scopes of the token request that a named resource (or the client) permits *)
+Theorem token_ri_statement_within treq permitted x :
+  In x (token_ri_statement treq permitted) -> In x treq /\ In x permitted.
+Proof. unfold token_ri_statement. intros H. apply dedup_in in H. apply filter_In in H as [H1 H2]. apply str_in_In in H2. auto. Qed.
